@@ -29,6 +29,8 @@ Inductive case :=
 | KLD (R : list cfl) (order : nat) (fwd : bool) (tol : float) (ak : list cfl) (sigma : float)
 (* one loop pass: AR_est_LD at orders p-2, p-1, p on the same R *)
 | KLDS (R : list cfl) (p : nat) (ap : list cfl) (bpp : float) (ak : list cfl) (sigma : float)
+(* utils.autocorr(x)[:nl+1] as AR_est_* obtain it, against the lagged-sum contract *)
+| KAC (x : list cfl) (nl : nat) (R : list cfl)
 (* AR_est_YW: xs = scipy.linalg.solve(toeplitz(R[:order]), R[1:order+1]) called by the harness *)
 | KYW (R : list cfl) (order : nat) (fwd : bool) (tol : float) (xs : list cfl) (ak : list cfl) (sigma : float)
 (* AR_psd(ak, sigma, n_freqs, sides) -> (w, psd);  s = sigma ** 0.5, zs = exp(-1j * w) *)
@@ -144,10 +146,18 @@ Definition check_genr (s sigma : float) (coefs : list cfl) (drop : nat) (u v : l
   (length u =? length v)%nat &&
   rec_ok sq (map cf coefs) (map cf u) (map cf v) (if (drop =? 0)%nat then 0 else length coefs).
 
+Definition check_ac (x : list cfl) (nl : nat) (R : list cfl) : bool :=
+  let xq := map (fun p => cr (cf p)) x in   (* lowest terms: integer-valued floats become integers *)
+  let Rq := map cf R in
+  let sc := cabs1 (autocorr_lag xq 0) in
+  all_fin x && all_fin R && (length R =? nl + 1)%nat && (nl <? length x)%nat &&
+  forallb (fun k => ccloseb tol_tight sc (autocorr_lag xq k) (nthC Rq k)) (seq 0 (nl + 1)).
+
 Definition check (c : case) : bool :=
   match c with
   | KLD R order fwd tol ak sigma => check_ld R order fwd tol ak sigma
   | KLDS R p ap bpp ak sigma => check_lds R p ap bpp ak sigma
+  | KAC x nl R => check_ac x nl R
   | KYW R order fwd tol xs ak sigma => check_yw R order fwd tol xs ak sigma
   | KPSD s sigma ak os nf zs psd => check_psd s sigma ak os nf zs psd
   | KGENV s sigma coefs drop vfull u v cout => check_genv s sigma coefs drop vfull u v cout
